@@ -95,7 +95,7 @@ fn target_strategy(levels: usize, has_outside_links: bool) -> impl Strategy<Valu
         4 => up_strategy(), 1 => Just(Seg::Dot), 1 => Just(Seg::Empty),
         2 => any::<u16>().prop_map(Seg::DirPath), 2 => any::<u16>().prop_map(Seg::Name), 1 => any::<u16>().prop_map(Seg::FilePath),
         3 => any::<u16>().prop_map(Seg::Secret), 2 => any::<u16>().prop_map(Seg::Ancestor),
-        1 => prop::sample::select(vec!["...", "..\\", "%2e", "..%00", "%2e%2e%2f", "..%5c", "etc", "proc", "self", "cwd", "~", "%c0%ae%c0%ae"]).prop_map(|s| Seg::Lit(s.to_string())),
+        1 => prop::sample::select(vec!["...", "..\\", "%2e", "..%00", "%2e%2e%2f", "..%5c", "etc", "proc", "self", "cwd", "~", "%c0%ae%c0%ae", "....", "%252e%252e", "..%20", ".. ", "%2e%2e%5c", "..%255c", "..%c0%af", "%u002e%u002e", "..%09", "..;x=1", "..."]).prop_map(|s| Seg::Lit(s.to_string())),
     ];
     let random = proptest::collection::vec(seg, 1..=10);
     let segs = if has_outside_links { prop_oneof![5 => climb, 2 => through_link, 3 => random].boxed() } else { prop_oneof![6 => climb, 4 => random].boxed() };
